@@ -175,9 +175,9 @@ class StructuredGrid(Grid):
         self._locations = {}
         self._buildLocations()  # locations are owned by a grid, so the grid builds them.
 
-        (_ii, iLen), (_ji, jLen), (_ki, kLen) = self.getIndexBounds()
-        # True if only contains k-cells.
-        self._isAxialOnly = iLen == jLen == 1 and kLen > 1
+        (iMin, iMax), (jMin, jMax), (kMin, kMax) = self.getIndexBounds()
+        # True if only contains k-cells (index bounds are range() arguments: minimum and upper limit)
+        self._isAxialOnly = iMax - iMin == jMax - jMin == 1 and kMax - kMin > 1
 
     def __len__(self) -> int:
         return len(self._locations)
